@@ -26,8 +26,8 @@ type Verdict struct {
 	Why string
 }
 
-func ok() Verdict                                     { return Verdict{OK: true} }
-func no(format string, a ...interface{}) Verdict      { return Verdict{Why: fmt.Sprintf(format, a...)} }
+func ok() Verdict                                { return Verdict{OK: true} }
+func no(format string, a ...interface{}) Verdict { return Verdict{Why: fmt.Sprintf(format, a...)} }
 func (e *Env) sigOK(h primitives.BlockHeight, content []byte, s *protocol.SenderSignature) bool {
 	if s == nil {
 		return false
@@ -335,7 +335,9 @@ func (e *Env) ValidBlockProof(proofBytes []byte, block interfaces.Block, com []i
 }
 
 // BigWeight is exported for evidence classification.
-func BigWeight(ids []primitives.MemberId, c []interfaces.CommitteeMember) *big.Int { return Weight(ids, c) }
+func BigWeight(ids []primitives.MemberId, c []interfaces.CommitteeMember) *big.Int {
+	return Weight(ids, c)
+}
 
 // SeedOf derives the random seed of a height from the previous proof's seed signature
 // (sha256, bytes 0,3,7,...,27 little endian) - written independently of services/randomseed.
